@@ -210,6 +210,12 @@ func c13Body(sigBlock, sigFinal string, kinds []string) func(rt *rapid.T, c *har
 					a.desc = fmt.Sprintf("appUnstake app%d", a.app)
 				case "appTransfer":
 					a.desc = fmt.Sprintf("appTransfer app%d -> fresh%d", a.app, a.node%2)
+					if rapid.Bool().Draw(rt, "ontoOtherAppKey") {
+						// ... or onto the key of the OTHER application (refused while that application has a record, a normal
+						// transfer once it was paid out and removed)
+						a.amt = 1
+						a.desc = fmt.Sprintf("appTransfer app%d -> key of app%d", a.app, 1-a.app)
+					}
 				case "nodeEdit":
 					a.amt = int64(rapid.IntRange(1, 2).Draw(rt, "nChains"))
 					a.desc = fmt.Sprintf("nodeEdit node%d chains=%d", a.node, a.amt)
@@ -327,6 +333,8 @@ func c13Body(sigBlock, sigFinal string, kinds []string) func(rt *rapid.T, c *har
 			c.NonTrivial()
 		}
 
+		refRestarts := rapid.SampledFrom([]string{"same", "same", "never", "every-block"}).Draw(rt, "referenceNodeRestarts")
+		c.Label("reference-restarts-" + refRestarts)
 		heightCacheOnA := rapid.SampledFrom([]bool{false, false, true}).Draw(rt, "heightCacheOnTrafficNode")
 		if heightCacheOnA {
 			c.Label("traffic-node-runs-with-height-cache")
@@ -387,6 +395,9 @@ func c13Body(sigBlock, sigFinal string, kinds []string) func(rt *rapid.T, c *har
 					return chain.SignTx(w.spec.ChainID, &appsTypes.MsgBeginUnstake{Address: chain.Addr(ak)}, chain.DefaultFee, "", w.e(), ak)
 				case "appTransfer":
 					msg := &appsTypes.MsgStake{PubKey: w.fresh[a.node%2].PublicKey(), Chains: nil, Value: sdk.ZeroInt()}
+					if a.amt == 1 {
+						msg.PubKey = w.apps[1-a.app].PublicKey()
+					}
 					return chain.SignTx(w.spec.ChainID, msg, chain.DefaultFee, "", w.e(), ak)
 				case "nodeEdit":
 					chains := append([]string{}, w.chains...)[:a.amt]
@@ -449,8 +460,19 @@ func c13Body(sigBlock, sigFinal string, kinds []string) func(rt *rapid.T, c *har
 					_, _ = pa.QueryAllParams(qh)
 				}
 			}
-			for _, bs := range script {
-				if bs.restart {
+			for bi, bs := range script {
+				// restarts empty every node-local cache. The node with traffic restarts at the generated points; the reference
+				// node at the same points, never, or before every block (a node that never runs with a populated cache)
+				restart := bs.restart
+				if !withTraffic {
+					switch refRestarts {
+					case "never":
+						restart = false
+					case "every-block":
+						restart = bi > 0
+					}
+				}
+				if restart {
 					n.Restart()
 					register()
 				}
